@@ -7,7 +7,8 @@ from checks.executor_common import STRICT, c10
 
 def run(ctx):
     run_conc(ctx, invs=STRICT["C10"], oracle_fns=[c10],
-             programs=["m02_first_successful", "m03_failure", "m07_min_with_failure", "m08_nested", "m11_tolerance", "m01_all_ok"],
+             programs=["m02_first_successful", "m03_failure", "m07_min_with_failure", "m08_nested", "m11_tolerance", "m01_all_ok",
+                       "m16_ctx_fails_with_straggler"],
              n_scen=(8, 20),
              extra_rule="Early-completion configurations with surviving branches inside a user function (function durations), between "
                         "operations, about to start a new operation or a nested map. Oracle on the backend's update stream: no update whose "
